@@ -1279,3 +1279,62 @@ def attragree(repo):
         res.samples.append(f"{gname} gives up on {give_up}; {vname} rejects {reject}")
     res.analysed = [au.rel, iu.rel]
     return res
+
+
+def elemsize(repo, schema=None, sites=None):
+    """R-ELEMSIZE (C14/C16): agreement between a back-end precondition and the front-end checks that establish it.
+    header_generator asserts the *truthiness* of an array's element size (`assert element_size_in_bits`: neither None
+    nor 0; GenericArrayView divides by it).  constraints.check_constraints must therefore reject both cases for every
+    ArrayType: unknown size (`... is None` on the element type's fixed size) and size zero (`fixed_size_of_type_in_bits(
+    <array>.base_type, ir) == 0`), each in an action registered for a pattern ending in ArrayType that appends an error;
+    and a constant negative element_count."""
+    from . import traversal as T
+    res = RuleResult("R-ELEMSIZE")
+    schema = schema or Schema(repo)
+    sites = sites if sites is not None else T.collect_sites(repo, schema)
+    hg = repo.mod("compiler/back_end/cpp/header_generator.py")
+    pre = []
+    for f in hg.funcs.values():
+        sized = set()
+        for n in walk_no_nested_funcs(f.node):
+            if isinstance(n, ast.Assign) and isinstance(n.value, ast.Call) and (call_name(n.value) or "").split(".")[-1] in ("_get_type_size", "fixed_size_of_type_in_bits") \
+                    and isinstance(n.targets[0], ast.Name):
+                sized.add(n.targets[0].id)
+        for n in walk_no_nested_funcs(f.node):
+            if isinstance(n, ast.Assert) and isinstance(n.test, ast.Name) and n.test.id in sized:
+                pre.append((f, n))
+    if not pre:
+        raise AnalysisError("header_generator: the truthiness assertion on an array element size was not found")
+    res.instances += len(pre)
+    have = {"none": False, "zero": False, "negative": False}
+    for s in sites:
+        if s.pattern is None or not isinstance(s.action, Func) or not s.module.rel.endswith("front_end/constraints.py"):
+            continue
+        if s.pattern[-1] != "ArrayType":
+            continue
+        f = s.action
+        appends = any(isinstance(n, ast.Call) and isinstance(n.func, ast.Attribute) and n.func.attr == "append" and "errors" in ast.unparse(n.func.value)
+                      for n in ast.walk(f.node))
+        if not appends:
+            continue
+        for n in walk_no_nested_funcs(f.node):
+            if not isinstance(n, ast.Compare) or len(n.ops) != 1:
+                continue
+            t = ast.unparse(n)
+            if isinstance(n.ops[0], ast.Is) and t.endswith("is None") and "size" in t:
+                have["none"] = True
+            if "fixed_size_of_type_in_bits" in t and "base_type" in t and (t.replace(" ", "").endswith(("==0", "<=0", "<1"))):
+                have["zero"] = True
+            if "constant_value" in t and "element_count" in t and t.replace(" ", "").endswith("<0"):
+                have["negative"] = True
+    f0, n0 = pre[0]
+    for k, what in (("none", "an element type of unknown size"), ("zero", "a zero-sized element type (`Marker[3]` with only virtual fields, `UInt:8[0][4]`)"),
+                    ("negative", "a negative constant array length (`UInt:8[-1]`)")):
+        res.instances += 1
+        if not have[k]:
+            res.add(f"compiler/front_end/constraints.py|check_constraints|array-{k}", f"{f0.qualname} asserts `{ast.unparse(n0.test)}` "
+                    f"(line {n0.lineno}) but no ArrayType check of constraints.check_constraints rejects {what}: the module passes the "
+                    "front end and the back end dies with AssertionError / emits a header that does not compile",
+                    "compiler/front_end/constraints.py", 0, "check_constraints")
+    res.analysed = [hg.rel, "compiler/front_end/constraints.py"]
+    return res
